@@ -817,7 +817,7 @@ func c37Coq(db0 []uint64, rid0 string, rdata0 []uint64, evs []c37REvent, obs []c
 		os[i] = fmt.Sprintf("{| r_calls := %s; r_err := %s; r_last := %d; r_rid := %s; r_rdata := %s |}",
 			coqList(cs), coqBool(o.Err), o.Last, c37OptID(o.RemoteID), c37NList(o.RemoteData))
 	}
-	return fmt.Sprintf("{| k_init := {| w_last := 0; w_db := %s; w_rid := %s; w_rdata := %s |}; k_events := %s; k_obs := %s |}",
+	return fmt.Sprintf("{| k_init := {| w_last := 0; w_db := %s; w_rid := %s; w_rdata := %s; w_silent := 0; w_rsilent := 0 |}; k_events := %s; k_obs := %s |}",
 		c37NList(db0), c37OptID(rid0), c37NList(rdata0), coqList(es), coqList(os))
 }
 
